@@ -121,6 +121,40 @@ fn call2<A: Arg, B: Arg>(i: &mut u64, a: A, b: B) -> Tr {
     log(format!("t{}:{}", k, 1000 + k));
     Tr::new(1000 + k)
 }
+/// unit-returning variants (the result type is zero-sized and has no destructor): same log, no element made
+fn call1u<A: Arg>(i: &mut u64, a: A) {
+    let k = *i;
+    callf(i, a);
+    log(format!("t{}:{}", k, 1000 + k));
+}
+fn call2u<A: Arg, B: Arg>(i: &mut u64, a: A, b: B) {
+    let k = *i;
+    *i += 1;
+    log(format!("{}{}:{}", A::tag(), k, a.id()));
+    log(format!("{}{}:{}", B::tag(), k, b.id()));
+    a.keep();
+    b.keep();
+    if call_panics(k) {
+        log(format!("p{}", k));
+        panic!("inject:call:{}", k);
+    }
+    log(format!("t{}:{}", k, 1000 + k));
+}
+fn gen1u(k: usize) {
+    let k = k as u64;
+    if call_panics(k) {
+        log(format!("p{}", k));
+        panic!("inject:call:{}", k);
+    }
+    log(format!("t{}:{}", k, 1000 + k));
+}
+/// a unit array is reported by length: virtual ids 1000, 1001, …
+fn unit_out<N: ArrayLength>(a: GenericArray<(), N>) -> (String, Vec<u64>) {
+    ("ok".into(), (0..a.len() as u64).map(|k| 1000 + k).collect())
+}
+fn unit_box_out<N: ArrayLength>(a: Box<GenericArray<(), N>>) -> (String, Vec<u64>) {
+    ("ok".into(), (0..a.len() as u64).map(|k| 1000 + k).collect())
+}
 fn callf<A: Arg>(i: &mut u64, a: A) {
     let k = *i;
     *i += 1;
@@ -334,6 +368,85 @@ where
             let r = finish(catch_unwind(AssertUnwindSafe(|| a.clone())), arr_out);
             quiet(|| drop(a));
             r
+        }
+        // results of a zero-sized type without destructor (`()`): every closure call still has to happen
+        "generate_unit" => finish(catch_unwind(|| GenericArray::<(), N>::generate(gen1u)), unit_out),
+        "boxed_generate_unit" => finish(catch_unwind(|| Box::<GenericArray<(), N>>::generate(gen1u)), unit_box_out),
+        "map_unit" => match form {
+            "o" => {
+                let a = arr::<A, N>(1);
+                if A::NEEDS_DROP { inputs.extend(&a_ids); }
+                finish(catch_unwind(AssertUnwindSafe(|| a.map(|x| call1u(&mut i, x)))), unit_out)
+            }
+            "r" => {
+                let a = arr::<A, N>(1);
+                let r = finish(catch_unwind(AssertUnwindSafe(|| (&a).map(|x| call1u(&mut i, x)))), unit_out);
+                quiet(|| drop(a));
+                r
+            }
+            "m" => {
+                let mut a = arr::<A, N>(1);
+                let r = finish(catch_unwind(AssertUnwindSafe(|| (&mut a).map(|x| call1u(&mut i, x)))), unit_out);
+                quiet(|| drop(a));
+                r
+            }
+            "b" => {
+                let a = quiet(|| Box::new(arr::<A, N>(1)));
+                if A::NEEDS_DROP { inputs.extend(&a_ids); }
+                finish(catch_unwind(AssertUnwindSafe(|| a.map(|x| call1u(&mut i, x)))), unit_box_out)
+            }
+            _ => return "bad-form".into(),
+        },
+        "zip_unit" => match (form, form2) {
+            ("o", "o") => {
+                let (a, b) = (arr::<A, N>(1), arr::<B, N>(101));
+                if A::NEEDS_DROP { inputs.extend(&a_ids); }
+                if B::NEEDS_DROP { inputs.extend(&b_ids); }
+                finish(catch_unwind(AssertUnwindSafe(|| a.zip(b, |x, y| call2u(&mut i, x, y)))), unit_out)
+            }
+            ("o", "r") => {
+                let (a, b) = (arr::<A, N>(1), arr::<B, N>(101));
+                if A::NEEDS_DROP { inputs.extend(&a_ids); }
+                let r = finish(catch_unwind(AssertUnwindSafe(|| a.zip(&b, |x, y| call2u(&mut i, x, y)))), unit_out);
+                quiet(|| drop(b));
+                r
+            }
+            ("r", "o") => {
+                let (a, b) = (arr::<A, N>(1), arr::<B, N>(101));
+                if B::NEEDS_DROP { inputs.extend(&b_ids); }
+                let r = finish(catch_unwind(AssertUnwindSafe(|| (&a).zip(b, |x, y| call2u(&mut i, x, y)))), unit_out);
+                quiet(|| drop(a));
+                r
+            }
+            ("r", "r") => {
+                let (a, b) = (arr::<A, N>(1), arr::<B, N>(101));
+                let r = finish(catch_unwind(AssertUnwindSafe(|| (&a).zip(&b, |x, y| call2u(&mut i, x, y)))), unit_out);
+                quiet(|| drop((a, b)));
+                r
+            }
+            _ => return "bad-form".into(),
+        },
+        "clone_from" => {
+            // `a.clone_from(&b)`: the old contents of `a` are the library's to dispose of; afterwards the harness
+            // drops `a` with the log running ("|" separates), so a second release of anything shows in the ledger
+            let boxed = get(kv, "boxed") == "1";
+            let mut a = quiet(|| Box::new(arr::<Tr, N>(1)));
+            let b = quiet(|| Box::new(arr::<Tr, N>(101)));
+            inputs.extend(&a_ids);
+            BAD_DROP.with(|x| *x.borrow_mut() = dtor_bad);
+            let r = if boxed {
+                catch_unwind(AssertUnwindSafe(|| a.clone_from(&b)))
+            } else {
+                catch_unwind(AssertUnwindSafe(|| (*a).clone_from(&*b)))
+            };
+            BAD_DROP.with(|x| *x.borrow_mut() = None);
+            let fin: Vec<u64> = a.iter().map(|t| t.id).collect();
+            let o = finish(r, |_| ("ok".into(), vec![]));
+            log("|".into());
+            drop(a);
+            quiet(|| drop(b));
+            second = Some(format!("final:{}", show_nats(fin).replace(',', ":")));
+            o
         }
         "fold" => match form {
             "o" => {
@@ -557,6 +670,8 @@ where
             B::NEEDS_DROP
         } else if id >= 1000 && op == "clone" {
             A::NEEDS_DROP
+        } else if id >= 1000 && op.ends_with("_unit") {
+            false
         } else {
             true
         }
@@ -601,7 +716,9 @@ where
             orc.push(format!("clone-calls{:?}", calls));
         }
     }
-    if (op == "map" || op == "zip" || op == "fold" || op == "generate" || op == "default") && fault == "none" {
+    let base_op = op.strip_prefix("boxed_").unwrap_or(op);
+    let base_op = base_op.strip_suffix("_unit").unwrap_or(base_op);
+    if (base_op == "map" || base_op == "zip" || op == "fold" || base_op == "generate" || op == "default") && fault == "none" {
         // once per index, ascending
         let idx: Vec<u64> = raw
             .iter()
@@ -610,7 +727,7 @@ where
                     r.split(':').next().and_then(|k| k.parse().ok())
                 } else if op == "fold" && (e.starts_with('g') || e.starts_with('l')) {
                     e[1..].split(':').next().and_then(|k| k.parse().ok())
-                } else if op != "fold" && e.starts_with('t') {
+                } else if op != "fold" && e.starts_with('t') && !e.starts_with("take:") {
                     e[1..].split(':').next().and_then(|k| k.parse().ok())
                 } else {
                     None
